@@ -5,7 +5,7 @@
     Proofs go through Flocq's real-number semantics, hence the four
     standard-library axioms of the classical reals in [Print Assumptions]. *)
 From Coq Require Import ZArith List Floats.SpecFloat.
-From Garr Require Import Pure.F64 Pure.Retry Pure.RetryProofs Pure.RetryFloat.
+From Garr Require Import Pure.F64 Pure.Retry Pure.RetryProofs Pure.RetryFloat Pure.RetryStack.
 Import ListNotations.
 Local Open Scope Z_scope.
 
@@ -67,6 +67,34 @@ Proof. exact expo_monotone. Qed.
 Theorem C05_of_bits_valid : forall b, valid64 (of_bits b).
 Proof. exact of_bits_valid. Qed.
 
+(** WHOLE STACKS: for every nesting of jitter and limit layers over a base the
+    constructors accept, every attempt number, every outcome of the random
+    source: the call returns, the result is the stop value -1 exactly when a
+    limit layer of the stack has been reached, and otherwise lies in
+    [0, MaxInt64] (no overflow, no stop turned into a retry or vice versa).
+    [p] is the oracle value of math.Pow(multiplier, n-1) of the base. *)
+Theorem C05_stack_envelope : forall p b n rnd,
+  wf b -> rates_ok b -> words rnd -> valid64 p ->
+  (fltb fone p = true \/ is_nan p = true) ->
+  exists d rnd', next_delay p b n rnd = Some (d, rnd') /\ words rnd' /\
+    (if limit_hit b n then d = -1 else 0 <= d <= max_int64).
+Proof. exact stack_envelope. Qed.
+
+Theorem C05_stack_stop_iff : forall p b n rnd d rnd',
+  wf b -> rates_ok b -> words rnd -> valid64 p ->
+  (fltb fone p = true \/ is_nan p = true) ->
+  next_delay p b n rnd = Some (d, rnd') ->
+  (d < 0 <-> limit_hit b n = true) /\ -1 <= d <= max_int64.
+Proof. exact stack_stop_iff. Qed.
+
+(** the hypotheses hold for everything the builder builds *)
+Theorem C05_built_stack_wf : forall b ls b', wf b -> build b ls = Some b' -> wf b'.
+Proof. exact build_wf. Qed.
+
+Theorem C05_built_stack_rates_ok : forall b ls b',
+  rates_ok b -> Forall layer_valid ls -> build b ls = Some b' -> rates_ok b'.
+Proof. exact build_rates_ok. Qed.
+
 Print Assumptions C05_sat_mul_jitter_ordered.
 Print Assumptions C05_jitter_band.
 Print Assumptions C05_jitter_ctor_rates.
@@ -77,3 +105,7 @@ Print Assumptions C05_sat_mul_mono_pow.
 Print Assumptions C05_exponential_ge_initial.
 Print Assumptions C05_exponential_monotone.
 Print Assumptions C05_of_bits_valid.
+Print Assumptions C05_stack_envelope.
+Print Assumptions C05_stack_stop_iff.
+Print Assumptions C05_built_stack_wf.
+Print Assumptions C05_built_stack_rates_ok.
